@@ -33,6 +33,8 @@ func init() {
 				Old: "\t\tevaluated = candidate\n", New: "\t\t_ = candidate\n", Expect: "callback-guard"},
 			{Name: "tick-skips-reconcile-when-rewatch-fails", File: pkgReload + "/watch.go",
 				Old: "\t\t\t\tnext, err := opts.newWatcher(dir)\n\t\t\t\tif err == nil {", New: "\t\t\t\tnext, err := opts.newWatcher(dir)\n\t\t\t\tif err != nil {\n\t\t\t\t\tcontinue\n\t\t\t\t}\n\t\t\t\tif err == nil {", Expect: "tick-reconciles"},
+			{Name: "reconcile-forgets-reverted-content", File: pkgReload + "/watch.go",
+				Old: "\t\tif current == observed {\n\t\t\treturn\n\t\t}\n", New: "\t\tif current == evaluated {\n\t\t\tstopDebounce()\n\t\t\treturn\n\t\t}\n\t\tif current == observed {\n\t\t\treturn\n\t\t}\n", Expect: "return-only-if-unchanged-or-recorded"},
 			{Name: "reconcile-schedules-always", File: pkgReload + "/watch.go",
 				Old: "\t\tif current == observed {\n\t\t\treturn\n\t\t}\n\t\tobserved = current\n", New: "\t\tobserved = current\n", Expect: "reconcile-on-change"},
 			{Name: "callback-in-goroutine", File: pkgReload + "/watch.go",
@@ -229,6 +231,27 @@ func runC38(c *Ctx) {
 				}
 			}
 		})
+		// observed tracks the file: reconcile may only return without recording what it just saw when that equals observed
+		eq := func(e Edge, cond ssa.Value, truth bool) bool {
+			bo, ok := cond.(*ssa.BinOp)
+			if !ok || cur == nil {
+				return false
+			}
+			cmp := (strip(bo.X) == cur && loadOf(bo.Y, "observed")) || (strip(bo.Y) == cur && loadOf(bo.X, "observed"))
+			return cmp && ((bo.Op == token.EQL && truth) || (bo.Op == token.NEQ && !truth))
+		}
+		recorded := NewMustSince(reconcile, func(x ssa.Instruction) bool {
+			st, ok := x.(*ssa.Store)
+			return ok && isCell(st.Addr, "observed") && strip(st.Val) == cur
+		}, func(x ssa.Instruction) bool { return false })
+		for _, r := range returnsOf(reconcile) {
+			if r.Block() == reconcile.Recover {
+				continue
+			}
+			g, ns := MustCross(r, eq)
+			c.Check("reconcile-on-change", "return-only-if-unchanged-or-recorded@reconcile", r, (g && ns > 0) || recorded.At(r),
+				"reconcile returns without recording the fingerprint it just took although it differs from 'observed': when the file later returns to the stale observed content the comparison says 'unchanged' and the final content is never reloaded")
+		}
 		if nSt == 0 || nSch == 0 {
 			c.Undecided("reconcile-on-change", "reconcile", fmt.Sprintf("observed stores=%d schedule calls=%d", nSt, nSch))
 		}
